@@ -168,6 +168,39 @@ def check_guards(ctx):
                'multiplicities %s: reactant %d with %d copies gives %s' % bad)
 
 
+def check_state_readers(ctx):
+    """Between two recorded rows the state changes only by stoichiometric columns (and rule operations): the interface methods that are
+    handed the state to *read* it - propensity evaluation in all four modes, the safe interface's count check, the derivative - never
+    store into it."""
+    prog = ctx.prog
+    readers = ('compute_propensities', 'compute_volume_propensities', 'compute_stochastic_propensities', 'compute_stochastic_volume_propensities',
+               'compute_lineage_propensities', 'check_count_function')
+    bad = []
+    n = 0
+    for cls in ('CSimInterface', 'ModelCSimInterface', 'SafeModelCSimInterface', 'LineageCSimInterface', 'SafeLineageCSimInterface'):
+        ci = prog.classes.get(cls)
+        if ci is None:
+            continue
+        for mname in readers:
+            fn = ci.methods.get(mname)
+            if fn is None or not fn.args.args[1:]:
+                continue
+            n += 1
+            st = fn.args.args[1].arg
+            for node in ast.walk(fn):
+                if isinstance(node, (ast.Assign, ast.AugAssign)):
+                    for t in (node.targets if isinstance(node, ast.Assign) else [node.target]):
+                        b = t
+                        while isinstance(b, ast.Subscript):
+                            b = b.value
+                        if isinstance(t, ast.Subscript) and isinstance(b, ast.Name) and b.id == st:
+                            bad.append('%s.%s stores into the state it was given: `%s` (%s)' % (cls, mname, util.stmt_key(node)[:60], prog.where(ci.module, node)))
+    if n < 8:
+        raise AnalysisError('anchor vanished: only %d state-reading interface methods found' % n)
+    ctx.ob('R6.1-state-readers', 'interfaces', not bad, 'bioscrape/simulator.pyx, lineage/lineage.pyx',
+           'propensity evaluation and the safe count check read the state array and never write it (%d methods scanned)' % n, '; '.join(bad[:3]))
+
+
 def check_safe(ctx):
     for mod_, cls in (('simulator', 'SafeModelCSimInterface'), ('lineage', 'SafeLineageCSimInterface')):
         check_safe_table(ctx, mod_, cls)
@@ -301,10 +334,16 @@ def check_safe_evaluators(ctx):
                     c = t.test
                     if isinstance(c, ast.Compare) and len(c.ops) == 1 and src(c.left).startswith(state + '['):
                         req = t
+                    elif isinstance(c, ast.Compare) and len(c.ops) == 1 and src(c.comparators[0]).startswith(state + '[') and \
+                            isinstance(c.ops[0], (ast.Gt, ast.GtE, ast.Lt, ast.LtE)):
+                        req = t     # mirrored comparison: amount > state[...]
                 if req is None:
                     problems.append('no requirement test on the state inside the scan')
                 else:
                     c = req.test
+                    if not src(c.left).startswith(state + '['):
+                        mirror = {ast.Gt: ast.Lt, ast.GtE: ast.LtE, ast.Lt: ast.Gt, ast.LtE: ast.GtE}[type(c.ops[0])]
+                        c = ast.Compare(left=c.comparators[0], ops=[mirror()], comparators=[c.left])
                     lhs = src(c.left).replace(' ', '')
                     rhs = src(c.comparators[0]).replace(' ', '')
                     m_idx = lhs[len(state) + 1:-1]
@@ -372,6 +411,7 @@ def check(ctx):
                     ('DelayVolumeSSASimulator', True)):
         check_sim(ctx, key, wd)
     check_guards(ctx)
+    check_state_readers(ctx)
     check_safe(ctx)
     # lattice membership is relative to the network's net stoichiometry: the matrices the simulators add columns of must be the
     # products-minus-reactants counts (C03 R3.1 / R3.3) - re-emitted here
